@@ -1068,6 +1068,9 @@ class Executor:
                 return Adt(owners[0], rv, [])
             if "Ordering" in owners:
                 return Adt("Ordering", rv, [])
+            if re.match(r"^[A-Z]\w*$", rv) and not owners:
+                # a unit variant of an enum that is not declared in this crate (e.g. termcolor's ColorChoice::Always): an opaque tag
+                return Opaque("foreign enum", rv)
         raise Unsupported("rvalue " + rv)
 
     def discriminant(self, v):
